@@ -940,7 +940,8 @@ fn compare(op: &MOp, l: MV, r: MV, addr: u8) -> Result<MV, Stop> {
         t if t == Ty::Gen || t.signed() => Some(sext(l.bits, t.bits(addr)).cmp(&sext(r.bits, t.bits(addr)))),
         _ => Some(l.bits.cmp(&r.bits)),
     };
-    let Some(o) = ord else { return Err(Stop::Unspecified("comparison with NaN")) };
+    // unordered (a NaN operand): IEEE 754 comparison, which is what comparing floating-point values means: only `ne` holds
+    let Some(o) = ord else { return Ok(MV::gen(matches!(op, MOp::Ne) as u64, addr)) };
     use std::cmp::Ordering::*;
     let b = match op {
         MOp::Eq => o == Equal,
